@@ -232,13 +232,7 @@ func (a *actor) run(p *Peer, nops int) {
 					a.subs.issued = append(a.subs.issued, ri)
 					p.Await(ri.ctr)
 					p.AutoDD = true
-					for i := len(p.Conn.Out) - 1; i >= 0; i-- {
-						s := p.Conn.Out[i]
-						if s.Gen == p.Conn.Gen && Classifier(s) == "read" && s.D != nil && len(s.D.Payload.Cmd) > 0 && s.D.Payload.Cmd[0].NodeManagementDetailedDiscoveryData != nil {
-							p.SendDiscoveryReply(s.D.Header.MsgCounter, s.D.Header.AddressSource)
-							break
-						}
-					}
+					p.AnswerHeldDiscovery()
 				} else {
 					p.Connect()
 					a.hookSnapshots(p)
@@ -315,12 +309,20 @@ func (a *actor) run(p *Peer, nops int) {
 //
 //go:norace
 func (a *actor) finishExtra() []RegOp {
+	return resolveEntdrops(a.pr.Peers, a.extra)
+}
+
+// resolveEntdrops: one operation per handled delivery of the removal notification (Desc holds
+// its message counter); other operations pass through.
+//
+//go:norace
+func resolveEntdrops(peers []*Peer, extra []RegOp) []RegOp {
 	var out []RegOp
-	for _, o := range a.extra {
+	for _, o := range extra {
 		if o.Kind == "entdrop" {
 			var ctr uint64
 			fmt.Sscan(o.Desc, &ctr)
-			for _, p := range a.pr.Peers {
+			for _, p := range peers {
 				if p.Name != o.Peer {
 					continue
 				}
